@@ -207,6 +207,7 @@ fn test_prefixes(ctx: &mut Ctx, rep: &mut Report, seekmax: u64, ac: &ArchiveCase
             rep.count("not_executed");
             continue;
         }
+        Ctx::breadcrumb(&case);
         let (real, msg) = open_class(&path);
         if let Some(t) = &mtok {
             if want != real {
